@@ -38,6 +38,9 @@ def scenarios_for(prop, tier, rng):
         if prop == "C01":
             # exit 0 must imply convergence also when the router rejected a step
             fc, r2 = tlc_cases("fault", 0, f"{prop}-gen-fault"); gens.append(r2)
+        bg = agentgen.big_scenarios(prop)
+        sc += bg if thorough or prop == "C02" else bg[1:]
+        counts["big_policy_scenarios"] = len(bg) if thorough or prop == "C02" else 1
         if prop == "C02":
             xc, r3 = tlc_cases("foreign", 0, f"{prop}-gen-foreign"); gens.append(r3)
             sc += agentgen.foreign_scenarios(xc, prop)
@@ -135,6 +138,9 @@ def design(prop, tier):
 # every n-th scenario of these properties is also run through the agent's local target
 LOCAL_SHARE = {"C01": 6, "C02": 8, "C03": 4, "C04": 3, "C15": 4, "C16": 6}
 
+# every n-th scenario of these properties is also run in daemon mode (one process, all runs, last run repeated)
+DAEMON_SHARE = {"C01": 8, "C02": 10, "C03": 2, "C04": 12, "C15": 6, "C16": 25}
+
 LEVEL = {"C01": "model_checking", "C02": "model_checking", "C03": "model_checking", "C04": "model_checking",
          "C15": "model_checking", "C16": "model_checking"}
 
@@ -191,6 +197,12 @@ def check(prop, tier):
             twins.append(t)
         scenarios += twins
         counts["scenarios_through_the_local_target"] = len(twins)
+    # ... and in daemon mode: one agent process performs all runs of a scenario and repeats the last one
+    if prop in DAEMON_SHARE:
+        step = DAEMON_SHARE[prop] if tier != "thorough" else max(1, DAEMON_SHARE[prop] // 2)
+        dt = agentgen.daemon_twins([s for s in scenarios if s.get("target") != "local"], step)
+        scenarios += dt
+        counts["scenarios_in_daemon_mode"] = len(dt) + counts.get("daemon_mode_scenarios", 0)
     trace, stats, viols = run_and_validate(prop, tier, scenarios, wd)
     bycase = {s["case"]: s for s in scenarios}
     for v in viols:
